@@ -37,6 +37,8 @@ type scenario struct {
 	Stem       string   `json:"stem"`
 	DestShape  string   `json:"destShape"`
 	Escapes    bool     `json:"escapes"`
+	// kind "linkchain" (ZipLinks.tla): targets of the chained symbolic-link entries
+	Chain [][]string `json:"chain"`
 }
 
 type event struct {
@@ -105,7 +107,37 @@ func buildZip(name string, kind string) []byte {
 	return b.Bytes()
 }
 
+// buildLinkZip: a/l -> t1, a/l/l -> t2, ..., a/l/.../l/pwned - every name lexically inside the destination.
+func buildLinkZip(chain [][]string, outsideAbs string) ([]byte, string) {
+	var b bytes.Buffer
+	w := zip.NewWriter(&b)
+	f0, _ := w.Create("first.txt")
+	_, _ = f0.Write([]byte("harmless"))
+	_, _ = w.CreateHeader(&zip.FileHeader{Name: "a/", Method: zip.Store})
+	_, _ = w.CreateHeader(&zip.FileHeader{Name: "a/sub/", Method: zip.Store})
+	p := "a"
+	for _, t := range chain {
+		p += "/l"
+		target := strings.Join(t, "/")
+		if target == "ABS" {
+			target = outsideAbs
+		}
+		h := &zip.FileHeader{Name: p, Method: zip.Store}
+		h.SetMode(os.ModeSymlink | 0o777)
+		f, _ := w.CreateHeader(h)
+		_, _ = f.Write([]byte(target))
+	}
+	name := p + "/pwned"
+	f, _ := w.CreateHeader(&zip.FileHeader{Name: name, Method: zip.Deflate})
+	_, _ = f.Write([]byte("payload"))
+	f1, _ := w.Create("last.txt")
+	_, _ = f1.Write([]byte("harmless too"))
+	_ = w.Close()
+	return b.Bytes(), name
+}
+
 type runner struct {
+	chain   [][]string
 	w       *hk.Writer
 	scratch string
 	osRoot  string
@@ -152,7 +184,13 @@ func (r *runner) run(backend string, nameComps []string, leadingSep bool, sep, k
 		}
 	}
 	zipPath := filepath.Join(root, "archive.zip")
-	if err := afero.WriteFile(base, zipPath, buildZip(name, kind), 0o644); err != nil {
+	data := []byte(nil)
+	if kind == "linkchain" {
+		data, name = buildLinkZip(r.chain, filepath.Join(root, "outside", "keep"))
+	} else {
+		data = buildZip(name, kind)
+	}
+	if err := afero.WriteFile(base, zipPath, data, 0o644); err != nil {
 		return err
 	}
 	var dest string
@@ -332,6 +370,15 @@ func replay(a *hk.Args) error {
 		sep := "/"
 		if rng.Intn(6) == 0 {
 			sep = "//" // doubled separators
+		}
+		if sc.Kind == "linkchain" {
+			r.chain = sc.Chain
+			for _, shape := range []string{"abs", "rel"} {
+				if err := r.run("os", nil, false, "/", "linkchain", "", shape, ""); err != nil {
+					return err
+				}
+			}
+			continue
 		}
 		if err := r.run("os", sc.Comps, sc.LeadingSep, sep, sc.Kind, sc.Stem, sc.DestShape, ""); err != nil {
 			return err
